@@ -36,12 +36,13 @@ Theorems ==
                            LET d == DecodeHeader(<<c.b0, b1, 0, 5>>) IN d.ok /\ d.hdr = (IF c.b0 >= 128 THEN 4 ELSE 2)
                                 /\ d.tag = (IF c.b0 >= 128 THEN (c.b0 % 32) * 256 + b1 ELSE c.b0 % 32)
 
-(* variants of an encoding and what the spec says about each: every truncation, every +-1 / +-256 change of a length byte *)
+(* variants of an encoding and what the spec says about each: every truncation, every +-1 change of EVERY byte (so also of the
+   length bytes of inner elements: a child shortened by one leaves a stray byte in its parent, a longer one overruns it) *)
 Bump(e, i, d) == [e EXCEPT ![i] = (e[i] + d + 256) % 256]
 LenPos(e) == IF e[1] >= 128 THEN {3, 4} ELSE {2}
 Variants(t) == LET e == Encode(t) IN
     [trunc |-> [n \in 0..(Len(e) - 1) |-> ParseBlob(SubSeq(e, 1, n), ShapeOf(t)).ok],
-     bump  |-> {[pos |-> i, d |-> d, bytes |-> Bump(e, i, d), res |-> ParseBlob(Bump(e, i, d), ShapeOf(t))] : i \in LenPos(e), d \in {1, -1}}]
+     bump  |-> {[pos |-> i, d |-> d, bytes |-> Bump(e, i, d), res |-> ParseBlob(Bump(e, i, d), ShapeOf(t))] : i \in DOMAIN e, d \in {1, -1}}]
 
 Expected ==
     CASE c.t = "tree" -> [bytes |-> Encode(c.tree), shape |-> ShapeOf(c.tree), variants |-> Variants(c.tree)]
